@@ -17,6 +17,7 @@ func init() {
 }
 
 func runC29(c *Ctx) {
+	c29Groups(c)
 	for _, sp := range kexSpecs {
 		for _, side := range []string{"Client", "Server"} {
 			checkKexHash(c, "C29.hash-seq", sp, side)
